@@ -227,6 +227,11 @@ def run(ctx):
     # DynamicContainer (write/read/query/remove + close/reopen probe), same monitor
     total += random_runs(ctx, "dyn", nrand // 2, 3, 2, 2, kd, "y322")
     total += random_runs(ctx, "dyn", nrand // 4, 2, 3, 1, kd, "y231")
+    # long histories on real parallel threads (no schedule): windows that lie between sched points are only
+    # reachable this way; 4 tasks x 20 operations, judged by the same monitor
+    nstress = 150 if ctx.quick else 2500
+    for target, keys in [("mem", 2), ("disk", 1), ("disk", 2), ("dyn", 2), ("dyn", 3)]:
+        total += random_runs(ctx, target, nstress, 4, 20, keys, kd, f"stress_{target}{keys}")
     ctx.cov["traces_validated_against_impl"] = total
     ctx.cov["evaluations"] = total
     ctx.cov["distinct_nontrivial"] = total
